@@ -108,10 +108,7 @@ func parse(raw string) (r map[string]interface{}, pan string) {
 		r["haspass"], r["pass"] = ok, p
 	}
 	r["target"] = u.Target
-	digis := u.Digis
-	if digis == nil {
-		digis = []string{}
-	}
+	digis := append([]string{}, u.Digis...)
 	r["digis"] = digis
 	params := map[string]string{}
 	for k, v := range u.Params {
@@ -121,6 +118,16 @@ func parse(raw string) (r map[string]interface{}, pan string) {
 		params[k] = strings.Join(v, "\x00")
 	}
 	r["params"] = params
+	// the result is the caller's: it is used the way applications use it (parameters added and overridden, the path
+	// edited).  Every parse is independent of what was done to earlier results, so none of this may show in a later one.
+	if u.Params != nil {
+		u.Params.Set("host", "used.example:1")
+		u.Params.Set("zz-used", "1")
+	}
+	for i := range u.Digis {
+		u.Digis[i] = "USED"
+	}
+	u.Host, u.Target = "used", "USED"
 	return
 }
 
